@@ -27,17 +27,19 @@ Frame == [][\A u \in Units \ Owned : dev'[u] = dev[u]]_vars
 Kinds   == {"fat12", "fat16", "fat32", "ext4", "iso", "squashfs"}
 Starts  == {"s0", "ssec", "s1m", "s5g"}        \* 0, one sector, 1 MiB, beyond 4 GiB (sparse device)
 SizeCls == {"small", "odd", "mid"}              \* smallest practical / not a multiple of the cluster or block / mid-range
-Works   == {"fill", "fillodd", "dirgrow", "mixed", "oversize", "exactfit"}
+Works   == {"fill", "fillodd", "dirgrow", "mixed", "oversize", "exactfit", "exactdirs"}
 \* fill: write until the filesystem reports no space, free every other file, fill again with mixed sizes;
 \* fillodd: fill with files of an odd size (one write each), free every other one, then refill with
 \*   files of 256K, 100K, 37K, 5K, 1K, each size until it is refused;
 \* exactfit (finalized kinds): the range is exactly as large as the image needs (learned from a first,
 \*   roomy build through the independent parser) and the last file ends on a block boundary;
+\* exactdirs: the same with 70 directories of 20-character names (the path tables - Joliet's are twice as
+\*   large as the primary ones - and the directory / inode tables cross block boundaries), Rock Ridge + Joliet;
 \* dirgrow: directories grown far past one cluster / block; mixed: create, overwrite, append,
 \* rename, remove, attributes; oversize (finalized kinds): a tree larger than the range
 Dims == [kind : Kinds, start : Starts, size : SizeCls, work : Works]
 Finalized(k) == k \in {"iso", "squashfs"}
-Tuples == {t \in Dims : (t.work \in {"oversize", "exactfit"} => Finalized(t.kind)) /\ (t.work \in {"fill", "fillodd"} => ~Finalized(t.kind))}
+Tuples == {t \in Dims : (t.work \in {"oversize", "exactfit", "exactdirs"} => Finalized(t.kind)) /\ (t.work \in {"fill", "fillodd"} => ~Finalized(t.kind))}
 
 \* ---- predicate over one recorded event, whatever produced it ----
 \* ev.src: "fs" (a tuple above), "fat" / "ext4" (a call of a generated behaviour of FatTree / ExtTree),
